@@ -33,7 +33,7 @@ Layout(j) == [comps |-> j.comps, has |-> j.has, resets |-> j.resets, plain |-> j
 
 TInit == /\ tid \in 1..Len(Batch) /\ l = 1 /\ verdict = "" /\ vkind = "" /\ vnew = FALSE /\ seen = {}
          /\ adopted = 0 /\ lastSw = FALSE /\ mon = [lastM |-> "", prevEnabled |-> FALSE, afterWake |-> FALSE, bad |-> "", fbc |-> <<>>,
-                       fmsOn |-> Batch[tid].fms, pendingFatal |-> FALSE, fbRaised |-> FALSE]
+                       fmsOn |-> Batch[tid].fms, pendingFatal |-> FALSE, fbRaised |-> FALSE, enab |-> {}, setups |-> {}]
          /\ Init(Layout(Batch[tid].shape), Batch[tid].fms)
 
 J(v) == ToJson(v)
@@ -73,6 +73,10 @@ OrderOwner(ev) ==
        ELSE IF ev.e = "exit" \/ pc \in {"crashed", "exited"} THEN {"C07"}
        ELSE {"C05"}
             \cup (IF ek \in Lifecycle \/ sk \in Lifecycle THEN {"C06"} ELSE {})
+            \* an execute() outside the on_enable() / on_disable() bracket (test or disabled mode; not enabled yet)
+            \cup (IF ek = "execute" /\ (mode \notin {"auto", "teleop"}
+                                        \/ (ev.o \in CompSet /\ sh.has[ev.o]["on_enable"] /\ ~en[ev.o]))
+                  THEN {"C06"} ELSE {})
             \cup (IF ek = "feedback" \/ sk = "fbphase" THEN {"C11"} ELSE {})
             \cup (IF lastSw THEN {"C07"} ELSE {})
 Owned(cs) == Prop = "ALL" \/ Prop \in cs
@@ -100,7 +104,15 @@ MonStep(ev) ==
              fbc |-> IF ev.k = "feedback" THEN Append(mon.fbc, ev.key) ELSE mon.fbc,
              fmsOn |-> mon.fmsOn, pendingFatal |-> (ev.raise /\ ~mon.fmsOn),
              fbRaised |-> (ev.k = "feedback" /\ ev.raise),      \* the last callback was a feedback getter that raised
-             bad |-> IF mon.pendingFatal THEN "mon:went_on_after_fault_without_fms"
+             \* components whose last lifecycle callback was on_enable(); components whose setup() was called
+             enab |-> IF ev.k = "on_enable" THEN mon.enab \cup {ev.o} ELSE IF ev.k = "on_disable" THEN mon.enab \ {ev.o}
+                      ELSE mon.enab,
+             setups |-> IF ev.k = "setup" THEN mon.setups \cup {ev.o} ELSE mon.setups,
+             bad |-> IF ev.k = "setup" /\ ev.o \in mon.setups THEN "mon:setup_called_twice"
+                     ELSE IF ev.k = "execute" /\ ev.o \in CompSet
+                        /\ (ev.m \notin {"auto", "teleop"} \/ (sh.has[ev.o]["on_enable"] /\ ev.o \notin mon.enab))
+                     THEN "mon:execute_outside_enable_bracket"
+                     ELSE IF mon.pendingFatal THEN "mon:went_on_after_fault_without_fms"
                      ELSE IF mon.afterWake /\ mon.prevEnabled
                         /\ \E c \in CompSet : \E a \in DOMAIN sh.resets[c] : ev.vals[c][a] # sh.resets[c][a]
                      THEN "mon:reset_attribute_survived_iteration" ELSE ""]
@@ -119,6 +131,7 @@ MonStep(ev) ==
 MonOwner(m) == IF m = "mon:getter_not_called_exactly_once" THEN {"C11"}
                ELSE IF m = "mon:raising_getter_killed_the_program_with_fms_attached" THEN {"C07", "C11"}
                ELSE IF m \in {"mon:program_died_with_fms_attached", "mon:went_on_after_fault_without_fms"} THEN {"C07"}
+               ELSE IF m \in {"mon:setup_called_twice", "mon:execute_outside_enable_bracket"} THEN {"C06"}
                ELSE {"C10"}
 MonMismatch(ev, m1) ==
     Verdict("MISMATCH", [v |-> "MISMATCH", tid |-> T.id, l |-> l, clauses |-> {m1.bad}, br |-> <<pc, mode>>,
